@@ -283,3 +283,33 @@ pub fn expected_resp(id: u32, origin: &str) -> Resp {
         body: resp_body(id, origin),
     }
 }
+
+/// A client that connects, optionally writes a few bytes, and then stays silent holding the
+/// connection until `hold` opens; records when the server closes the connection.
+pub async fn silent_client(client: DuplexClient, id: u32, bufsize: usize, prefix: Vec<u8>, obs: Obs, hold: Gate) {
+    use tokio::io::{AsyncReadExt, AsyncWriteExt};
+    let Ok(mut s) = client.connect(bufsize).await else {
+        obs.lock().unwrap().responses.insert(id, Err("connect".into()));
+        return;
+    };
+    obs.lock().unwrap().notes.push(format!("silent{id} connected"));
+    if !prefix.is_empty() {
+        let _ = s.write_all(&prefix).await;
+        let _ = s.flush().await;
+    }
+    let mut buf = [0u8; 256];
+    loop {
+        tokio::select! {
+            biased;
+            r = s.read(&mut buf) => match r {
+                Ok(0) | Err(_) => {
+                    obs.lock().unwrap().client_conn_closed.insert(id, "eof".into());
+                    break;
+                }
+                Ok(_) => {}
+            },
+            _ = hold.wait() => break,
+        }
+    }
+    obs.lock().unwrap().done_clients.push(id);
+}
